@@ -128,8 +128,8 @@ CLAIMS = {
             "(C06_same_group_same_unit, C06_unit_in_collection_order); _assign_work_unit moves the head unit to ONE worker whole and its single runtests carries exactly the unit's not yet "
             "completed tests in order (C06_assign_sends_whole_unit); homogeneity of units is an invariant of every scheduler call incl. re-queueing after a crash (step_hom) and of every "
             "execution of the whole system in the three modes (C06_sys_units_hold_one_group); a group key is in ONE place at a time - queued, or in exactly one worker's assigned work - through every "
-            "scheduler call and every execution of the whole system (step_di, C06_sys_group_in_one_place); after a crash exactly the dead worker's units with work left go back to the queue, as units, the crash item marked done (C06_after_crash_requeue); ON THE WIRE, whole system: every runtests command ever written carries, read in the agreed collection, tests of one single group (step_wi, C06_sys_every_runtests_one_group). Partial: contiguity on the worker (FIFO by C05 + one command per unit) is "
-            "validated by the scheduler correspondence and the whole-system monitor, not proved as one theorem",
+            "scheduler call and every execution of the whole system (step_di, C06_sys_group_in_one_place); after a crash exactly the dead worker's units with work left go back to the queue, as units, the crash item marked done (C06_after_crash_requeue); ON THE WIRE, whole system: every runtests command ever written carries, read in the agreed collection, tests of one single group (step_wi, C06_sys_every_runtests_one_group); AT THE WORKER, whole system: what a worker has received is a concatenation of whole runtests payloads of the log, each of one group, and what it runs is in order a subsequence of that "
+            "(C06_sys_worker_runs_whole_groups = WI + C05_sys_received_is_whole_commands + C05_sys_order_and_nextitem). Not modelled: test-id strings as pytest renders them beyond the generated descriptors (correspondence)",
             "string lemmas by induction (split/rsplit/rfind); association-list invariants by induction over scheduler calls lifted over every step of the composed system (Lean 4) ; differential correspondence of the three _split_scope functions and of the '@group' tagging; scheduler correspondence; whole-system simulation with group monitors"),
     "C14": ("Lean theorems for every warning and every capability profile of the controller (which classes it can import, what their constructors do): receiving never raises; an "
             "importable class whose constructor accepts the arguments is rebuilt with the same category; otherwise a generic warning carrying '<module>.<class>: <text>' (category kept "
